@@ -6,11 +6,11 @@ Local Open Scope char_scope.
 
 
 Lemma c12_ws_not_hash : forall c, c12_is_ws c = true -> Ascii.eqb c "#" = false.
-Proof. intros c H. destruct (Ascii.eqb_spec c "#"); [subst; discriminate|reflexivity]. Qed.
+Proof. intros c H. destruct (Ascii.eqb_spec c "#"); [subst; vm_compute in H; discriminate|reflexivity]. Qed.
 Lemma c12_ws_not_eq : forall c, c12_is_ws c = true -> Ascii.eqb c "=" = false.
-Proof. intros c H. destruct (Ascii.eqb_spec c "="); [subst; discriminate|reflexivity]. Qed.
+Proof. intros c H. destruct (Ascii.eqb_spec c "="); [subst; vm_compute in H; discriminate|reflexivity]. Qed.
 Lemma c12_ws_not_rbr : forall c, c12_is_ws c = true -> Ascii.eqb c "]" = false.
-Proof. intros c H. destruct (Ascii.eqb_spec c "]"); [subst; discriminate|reflexivity]. Qed.
+Proof. intros c H. destruct (Ascii.eqb_spec c "]"); [subst; vm_compute in H; discriminate|reflexivity]. Qed.
 
 Lemma c12_blank_no : forall c b, (forall x, c12_is_ws x = true -> Ascii.eqb x c = false) ->
   c12_blankb b = true -> c12_nochar c b = true.
@@ -36,14 +36,14 @@ Definition c12_tight (s : c12_str) : Prop := c12_ltrim s = s /\ c12_rtrim s = s.
 
 Lemma c12_ltrim_head : forall c s, c12_ltrim (c :: s) = c :: s -> c12_is_ws c = false.
 Proof.
-  intros c s H. unfold c12_ltrim in H. cbn in H. destruct (c12_is_ws c) eqn:E; [|reflexivity].
+  intros c s H. destruct (c12_is_ws c) eqn:E; [|reflexivity].
   exfalso. assert (L : forall t, length (c12_dropwhile c12_is_ws t) <= length t).
-  { induction t as [|y t IHt]; cbn; [lia|]. destruct (c12_is_ws y); cbn; lia. }
-  specialize (L s). rewrite H in L. cbn in L. lia.
+  { induction t as [|y t IHt]; cbn [c12_dropwhile length]; [lia|]. destruct (c12_is_ws y); cbn [length]; lia. }
+  specialize (L s). unfold c12_ltrim in H. cbn [c12_dropwhile] in H. rewrite E in H. rewrite H in L. cbn [length] in L. lia.
 Qed.
 
 Lemma c12_ltrim_cons_app : forall c s t, c12_is_ws c = false -> c12_ltrim ((c :: s) ++ t) = (c :: s) ++ t.
-Proof. intros c s t H. unfold c12_ltrim. cbn. rewrite H. reflexivity. Qed.
+Proof. intros c s t H. unfold c12_ltrim. cbn [app c12_dropwhile]. rewrite H. reflexivity. Qed.
 
 Lemma c12_rtrim_blank : forall b, c12_blankb b = true -> c12_rtrim b = [].
 Proof.
@@ -123,6 +123,11 @@ Proof.
     by (now rewrite <- !app_assoc).
   cbn [c12_split_at Ascii.eqb Bool.eqb andb]. rewrite (c12_split_at_app "]" _ trail Hno). cbn [tl].
   rewrite (c12_ltrim_blank_app b1 _ Hb1). rewrite (c12_trim_name name b2 Ht Hb2). reflexivity.
+Qed.
+
+Lemma c12_quote_cases : forall q, c12_is_quote q = true -> c12_is_ws q = false /\ Ascii.eqb q "#" = false.
+Proof.
+  intros q H. destruct q as [[] [] [] [] [] [] [] []]; try (split; reflexivity); vm_compute in H; discriminate.
 Qed.
 
 (* key part, '=', and a right-hand side W (no '#') followed by an optional comment *)
@@ -206,13 +211,13 @@ Lemma c12_classify_assign_quoted : forall qhash b0 key b1 b2 q X comment,
 Proof.
   intros qhash b0 key b1 b2 q X comment Hb0 Hb1 Hb2 Hk Hq HX Hc Hcl.
   assert (Hqh : Ascii.eqb q "#" = false).
-  { unfold c12_is_quote in Hq. apply orb_true_iff in Hq as [Hq|Hq]; apply Ascii.eqb_eq in Hq; subst; reflexivity. }
+  { apply (c12_quote_cases q Hq). }
   assert (HW : c12_nochar "#" (q :: X) = true).
   { cbn [c12_nochar forallb]. fold (c12_nochar "#" X). rewrite Hqh, HX. reflexivity. }
   assert (Hqws : c12_is_ws q = false).
-  { unfold c12_is_quote in Hq. apply orb_true_iff in Hq as [Hq|Hq]; apply Ascii.eqb_eq in Hq; subst; reflexivity. }
+  { apply (c12_quote_cases q Hq). }
   assert (Hlt : forall s, c12_ltrim (q :: s) = q :: s).
-  { intros s. unfold c12_ltrim. cbn. rewrite Hqws. reflexivity. }
+  { intros s. unfold c12_ltrim. cbn [c12_dropwhile]. rewrite Hqws. reflexivity. }
   rewrite c12_classify_assign_shape by assumption. rewrite Hlt.
   destruct qhash; [|reflexivity].
   cbn [app]. rewrite Hlt, Hq. f_equal. f_equal.
@@ -238,7 +243,7 @@ Qed.
 
 Lemma c12_quote_not_ws : forall q, c12_is_quote q = true -> c12_is_ws q = false.
 Proof.
-  intros q H. unfold c12_is_quote in H. apply orb_true_iff in H as [H|H]; apply Ascii.eqb_eq in H; subst; reflexivity.
+  intros q H. apply (c12_quote_cases q H).
 Qed.
 
 Lemma c12_rtrim_snoc : forall s c, c12_is_ws c = false -> c12_rtrim (s ++ [c]) = s ++ [c].
@@ -343,11 +348,11 @@ Qed.
 
 Lemma c12_quote_hash : forall q, c12_is_quote q = true -> Ascii.eqb q "#" = false.
 Proof.
-  intros q Hq. unfold c12_is_quote in Hq. apply orb_true_iff in Hq as [Hq|Hq]; apply Ascii.eqb_eq in Hq; subst; reflexivity.
+  intros q Hq. apply (c12_quote_cases q Hq).
 Qed.
 
 Lemma c12_ltrim_quote : forall q s, c12_is_quote q = true -> c12_ltrim (q :: s) = q :: s.
-Proof. intros q s Hq. unfold c12_ltrim. cbn. rewrite (c12_quote_not_ws q Hq). reflexivity. Qed.
+Proof. intros q s Hq. unfold c12_ltrim. cbn [c12_dropwhile]. rewrite (c12_quote_not_ws q Hq). reflexivity. Qed.
 
 Lemma c12_simple_doc_loop : forall qhash ls fuel pt prefix seen ow ub,
   forallb c12_sline_ok ls = true -> length (flat_map c12_render_sline ls) < fuel ->
@@ -376,7 +381,7 @@ Proof.
         - cbn [app]. rewrite (c12_ltrim_blank_app b3 _ ltac:(assumption)).
           destruct comment as [|c cm]; [exact I|]. cbn in H. apply Ascii.eqb_eq in H. subst c. reflexivity.
         - destruct (c12_tightb_tight _ ltac:(eassumption)) as [Hvl _].
-          cbn [app]. unfold c12_ltrim. cbn. rewrite (c12_ltrim_head _ _ Hvl).
+          cbn [app]. unfold c12_ltrim. cbn [c12_dropwhile]. rewrite (c12_ltrim_head _ _ Hvl).
           match goal with Hx : negb (c12_is_quote v0) = true |- _ => apply negb_true_iff in Hx; exact Hx end. }
       eapply eq_trans.
       { eapply c12_loop_assign.
@@ -549,3 +554,12 @@ Proof.
     + destruct How as [How|How]; [discriminate|]. rewrite How in H. cbn [negb] in H.
       destruct (c12_set _ _ _) as [t ok] eqn:Es; destruct ok; inversion H; subst. apply Hset. reflexivity.
 Qed.
+
+(* groups and dotted keys are two spellings of the same thing: two dialect documents that denote the same
+   (full key, value) list are read to the same tree and status *)
+Lemma c12_group_equals_dotted : forall qhash ls1 ls2 pt ow,
+  forallb c12_sline_ok ls1 = true -> forallb c12_sline_ok ls2 = true ->
+  c12_sdoc_assigns ls1 [] = c12_sdoc_assigns ls2 [] ->
+  c12_ts (c12_parse_ini_lines qhash (flat_map c12_render_sline ls1) pt ow) =
+  c12_ts (c12_parse_ini_lines qhash (flat_map c12_render_sline ls2) pt ow).
+Proof. intros. rewrite !c12_roundtrip by assumption. congruence. Qed.
